@@ -59,6 +59,8 @@ def confirm(d):
             print("cannot find demo destination", txt)
             return 2
         dest = dest.lstrip("/")
+        if dest.startswith("<repo>/"):
+            dest = dest[len("<repo>/"):]
         if dest.startswith("tmp/mut/"):
             dest = "/".join(dest.split("/")[3:])
         pkg = "./" + os.path.dirname(dest)
